@@ -16,6 +16,13 @@ package cmd
 // their own sequence (gate read / marker+signal / delivery of the signal to the daemon's signal
 // loop / one poll), each step possibly at a later stage than the previous one.
 //
+// DELIVERY TIMING. kill(2) returns once the signal is pending; when the daemon's signal loop handles it
+// relative to the sender's next step is up to the scheduler. The harness' replacement for kill
+// therefore delivers in one of three modes chosen per request: "inside-kill" (the daemon's admission
+// or refusal, including its progress-file write, completes before kill returns to the client),
+// "after-next-step" (the client's call returns and it takes one more step of its own - one poll -
+// before the daemon handles the signal) and "queued" (handled at a later step or stage).
+//
 // The client side runs dae's real functions readSignalProgressFile, writeReloadSendAndSignal (kill
 // replaced by the harness' signal delivery) and waitReloadCompletion (one poll per call). The two
 // lines of reloadCmd.Run that connect them (signal only if the file says done or error) are
@@ -69,6 +76,8 @@ type c20Req struct {
 	DeliverAt     int    `json:"-"`
 	PollSameStage bool   `json:"-"`
 	Swallow       bool   `json:"-"`
+	Mode          int    `json:"-"` // c20Delivery index (through `dae reload` only)
+	Delivery      string `json:"signal_handled_when,omitempty"`
 	Cycle         int    `json:"cycle"`
 	GateStage     string `json:"gate_read_at,omitempty"`
 	GateSaw       string `json:"gate_saw,omitempty"`
@@ -84,6 +93,9 @@ type c20Req struct {
 	state         int    // 0 new, 1 gate passed, 2 signal on its way, 3 waiting for the answer, 4 finished
 	deliverCycle  int
 }
+
+// when the daemon handles a signal relative to the sender's steps
+var c20Delivery = []string{"inside-kill", "after-next-step", "queued"}
 
 func (c *c20Req) iface() string {
 	if c.CLI {
@@ -167,18 +179,67 @@ func (x *c20E2E) gate(c *c20Req, stage string) {
 	x.logf("%s: %s(cli) reads file=%s -> will signal", stage, c.Name, c.GateSaw)
 }
 
-func (x *c20E2E) send(c *c20Req, stage string) {
+// send: the real writeReloadSendAndSignal; reports whether the signal has been handled by the daemon
+// already (delivery modes "inside-kill" and "after-next-step").
+func (x *c20E2E) send(c *c20Req, stage string) (delivered bool) {
 	before := x.fileStr()
+	c.SendStage = stage
+	c.state = 2
 	err := writeReloadSendAndSignal(x.e.file, 4242, func(_ int, sig syscall.Signal) error {
 		c.Signalled = sig == syscall.SIGUSR1
+		x.logf("%s: %s(cli) sends SIGUSR1 (file %s -> %s)", stage, c.Name, before, x.fileStr())
+		if c.Signalled && c.Mode == 0 {
+			// the daemon's signal loop runs before kill returns to the client
+			c.Delivery = c20Delivery[0]
+			x.deliver(c, stage)
+			delivered = true
+		}
 		return nil
 	})
-	c.SendStage = stage
 	if err != nil || !c.Signalled {
 		x.e.ioErrs.Add(1)
 	}
-	c.state = 2
-	x.logf("%s: %s(cli) writes its marker and sends SIGUSR1 (file %s -> %s)", stage, c.Name, before, x.fileStr())
+	x.logf("%s: %s(cli) marker+signal call returned (file %s)", stage, c.Name, x.fileStr())
+	if x.h.violated {
+		return delivered
+	}
+	switch {
+	case delivered:
+		// The daemon has answered and the client has not taken any step of its own since its call
+		// returned, nor has anybody else (one goroutine): a refusal must be in the file as the busy
+		// report. Only the one unmistakable sign is judged: the client's own marker in its place.
+		if !x.twin && !c.Admitted && !c.Swallowed {
+			x.mon.Eval(1)
+			if code, _, ok := c20ReadProgressFile(x.e.file); ok && code == consts.ReloadSend {
+				x.violation("e2e/busy-report-overwritten-by-client-marker/"+c20EffStage(stage),
+					fmt.Sprintf("request %s (dae reload) was refused by the daemon while its kill() was still in progress (the busy report was written), and when the client's call returned the progress file holds the client's marker %q instead: the refused request is not reported as busy", c.Name, x.fileStr()), nil)
+				return delivered
+			}
+			x.mon.Count("e2e_busy_report_survives_client_call", 1)
+		}
+	case c.Mode == 1:
+		// one more step of the client (its first poll) before the daemon's signal loop runs
+		c.Delivery = c20Delivery[1]
+		answered := x.poll(c, stage)
+		if answered && !x.twin {
+			x.mon.Count("recorded/e2e_cli_answered_before_signal_handled", 1)
+		}
+		x.deliver(c, stage)
+		if answered {
+			c.state = 4
+		}
+		delivered = true
+	default:
+		c.Delivery = c20Delivery[2]
+	}
+	return delivered
+}
+
+func c20EffStage(stage string) string {
+	if stage == "pre" || stage == "post" {
+		return "queued" // refused there: the request in progress has been admitted and not yet taken by the worker
+	}
+	return stage
 }
 
 // deliver: the daemon's signal loop takes the signal. While the main loop waits for the new
@@ -222,8 +283,16 @@ func (x *c20E2E) deliver(c *c20Req, stage string) {
 		return
 	}
 	x.mon.Eval(1)
-	if stage == "pre" || stage == "post" {
-		stage = "queued" // refused there: the request in progress has been admitted and not yet taken by the worker
+	stage = c20EffStage(stage)
+	if c.CLI && c.Delivery == "" {
+		c.Delivery = c20Delivery[2]
+	}
+	if c.CLI && !c.Swallowed {
+		if c.Admitted {
+			x.mon.Count("e2e_delivery/"+c.Delivery+"/admitted/cli", 1)
+		} else if x.cur != nil {
+			x.mon.Count("e2e_delivery/"+c.Delivery+"/"+x.curIA+">cli@"+stage, 1)
+		}
 	}
 	switch {
 	case c.Admitted && x.cur != nil:
@@ -268,15 +337,18 @@ func (x *c20E2E) poll(c *c20Req, stage string) bool {
 }
 
 func (x *c20E2E) step(c *c20Req, idx int, stage string) {
+	delivered := false
+	if x.h.violated {
+		return
+	}
 	if c.CLI {
 		if c.state == 0 && idx >= c.GateAt {
 			x.gate(c, stage)
 		}
 		if c.state == 1 && idx >= c.SendAt {
-			x.send(c, stage)
+			delivered = x.send(c, stage)
 		}
 	}
-	delivered := false
 	if c.state == 2 && idx >= c.DeliverAt {
 		x.deliver(c, stage)
 		delivered = true
@@ -300,9 +372,9 @@ func (x *c20E2E) onStage(_ *c20Plan, stage string) {
 }
 
 // issue sends a NEW request while nothing is in progress: it has to be accepted.
-func (x *c20E2E) issue(cli, suspend bool, stage string, followUp bool) bool {
+func (x *c20E2E) issue(cli, suspend bool, mode int, stage string, followUp bool) bool {
 	x.nreq++
-	c := &c20Req{Name: fmt.Sprintf("A%d", x.nreq), CLI: cli, Suspend: suspend && !cli, Cycle: x.cycle, state: 2}
+	c := &c20Req{Name: fmt.Sprintf("A%d", x.nreq), CLI: cli, Suspend: suspend && !cli, Mode: mode, Cycle: x.cycle, state: 2}
 	x.all = append(x.all, c)
 	if cli {
 		c.state = 0
@@ -316,10 +388,14 @@ func (x *c20E2E) issue(cli, suspend bool, stage string, followUp bool) bool {
 			}
 			return false
 		}
-		x.send(c, stage)
+		if x.send(c, stage); x.h.violated {
+			return false
+		}
 	}
-	x.deliver(c, stage)
-	if c.CLI {
+	if c.state == 2 {
+		x.deliver(c, stage)
+	}
+	if c.CLI && c.state != 4 {
 		x.clients = append(x.clients, c)
 	}
 	if !c.Admitted {
@@ -510,9 +586,14 @@ func (x *c20E2E) settleKeys(follow string) {
 }
 
 func c20GenScript(r *rand.Rand, name string) *c20Req {
-	c := &c20Req{Name: name, CLI: r.IntN(2) == 0, PollSameStage: r.IntN(2) == 0, Swallow: r.IntN(2) == 0, state: 2}
+	c := &c20Req{Name: name, CLI: r.IntN(5) < 3, PollSameStage: r.IntN(2) == 0, Swallow: r.IntN(2) == 0, state: 2}
+	if c.CLI {
+		// the client side has more dimensions (gate/send stages, delivery timing): more of them, and fewer
+		// of their signals consumed by the ready wait
+		c.Swallow = r.IntN(3) == 0
+	}
 	// later stages are reached by fewer cycles: weight them up
-	target := []int{1, 2, 2, 3, 3, 4, 4, 4, 5, 5, 5, 5}[r.IntN(12)] // queued .. retiring
+	target := []int{1, 2, 2, 3, 3, 4, 4, 4, 4, 5, 5, 5}[r.IntN(12)] // queued .. retiring
 	if r.IntN(12) == 0 {
 		target = 6 // arrives after the release
 	}
@@ -540,16 +621,26 @@ func c20GenScript(r *rand.Rand, name string) *c20Req {
 	if c.SendAt < 1 {
 		c.SendAt = 1
 	}
+	// when the daemon handles the signal: before kill returns / after the client's next step (both at
+	// the stage of the send, which then is the target stage) / at the target stage as scripted
+	if c.Mode = r.IntN(3); c.Mode != 2 {
+		c.SendAt = target
+		if c.GateAt > target {
+			c.GateAt = target
+		}
+	}
 	return c
 }
 
 type c20E2ECase struct {
-	plans    []*c20Plan
-	cli      []bool
-	suspend  []bool
-	scripts  [][]*c20Req
-	finalCLI bool
-	tail     []*c20Plan
+	plans     []*c20Plan
+	cli       []bool
+	suspend   []bool
+	scripts   [][]*c20Req
+	finalCLI  bool
+	mode      []int // delivery mode of the request in progress of each planned cycle (same in the twin)
+	finalMode [2]int
+	tail      []*c20Plan
 }
 
 func c20PlainPlan(r *rand.Rand) *c20Plan {
@@ -625,7 +716,7 @@ func c20RunChain(mon *vk.Monitor, r *rand.Rand, log *logrus.Logger, no int, path
 			}
 		}
 		if x.cur == nil {
-			if !x.issue(cs.cli[i], cs.suspend[i], "pre", i > 0) {
+			if !x.issue(cs.cli[i], cs.suspend[i], cs.mode[i], "pre", i > 0) {
 				return nil, false
 			}
 		} else if !twin {
@@ -653,7 +744,7 @@ func c20RunChain(mon *vk.Monitor, r *rand.Rand, log *logrus.Logger, no int, path
 	for k := 0; k < 2; k++ {
 		x.cycle++
 		cli := cs.finalCLI == (k == 0)
-		if !x.issue(cli, k == 1, "post", true) {
+		if !x.issue(cli, k == 1, cs.finalMode[k], "post", true) {
 			return nil, false
 		}
 		if !cycle(x.cycle, cs.tail[len(cs.tail)-1-k], false) {
@@ -680,14 +771,15 @@ func c20RunE2E(t interface{ TempDir() string }, mon *vk.Monitor, r *rand.Rand, l
 	} else {
 		defer os.RemoveAll(dir)
 	}
-	n := vk.Scale(1200, 20000)
+	n := vk.Scale(1800, 30000)
 	v0 := mon.Violations()
 	for i := 0; i < n && mon.Violations() < v0+3; i++ {
-		cs := &c20E2ECase{finalCLI: r.IntN(2) == 0}
+		cs := &c20E2ECase{finalCLI: r.IntN(2) == 0, finalMode: [2]int{r.IntN(3), r.IntN(3)}}
 		for k, nc := 0, 1+r.IntN(3); k < nc; k++ {
 			cs.plans = append(cs.plans, c20PlainPlan(r))
 			cs.cli = append(cs.cli, r.IntN(2) == 0)
 			cs.suspend = append(cs.suspend, r.IntN(3) == 0)
+			cs.mode = append(cs.mode, r.IntN(3))
 			var sc []*c20Req
 			for j, nr := 0, r.IntN(4); j < nr; j++ {
 				sc = append(sc, c20GenScript(r, ""))
@@ -726,6 +818,17 @@ func c20E2ERequired() []string {
 	for _, st := range c20Stages {
 		req = append(req, "e2e_stage_visited/"+st)
 	}
+	// delivery mode x stage x interface of the request in progress (sender: `dae reload`; a raw signal
+	// has no sender-side step after kill)
+	for _, mode := range c20Delivery {
+		req = append(req, "e2e_delivery/"+mode+"/admitted/cli")
+		for _, ia := range []string{"raw", "cli"} {
+			for _, st := range []string{"queued", "active", "handoff", "serving", "retiring"} {
+				req = append(req, "e2e_delivery/"+mode+"/"+ia+">cli@"+st)
+			}
+		}
+	}
+	req = append(req, "e2e_busy_report_survives_client_call")
 	return req
 }
 
